@@ -91,11 +91,12 @@ def stepLine (st : St) : List String → St × String
       | .error e => ({ st with cx := none, prev := if st.out.isEmpty then st.prev else st.out, out := [] }, errName e)
     | _, _, _ => (st, "bad-op")
   | ["state", iv, off, sb] =>
-    match bytesOfHex iv, off.toNat?, bytesOfHex sb with
-    | some iv, some off, some sb =>
+    match st.cx, bytesOfHex iv, off.toNat?, bytesOfHex sb with
+    | some cx, some iv, some off, some sb =>
+      if iv.length ≠ cx.bs ∨ sb.length ≠ cx.bs then (st, "bad-op") else
       ({ st with iv := iv, off := off, sb := sb, iv0 := iv, acc := [], out := [],
                  prev := if st.out.isEmpty then st.prev else st.out, specOk := off == 0 }, "ok")
-    | _, _, _ => (st, "bad-op")
+    | _, _, _, _ => (st, "bad-op")
   | ["crypt", fn, inp] =>
     match st.cx, fnOf fn, (if inp = "@" then some st.prev else bytesOfHex inp) with
     | some cx, some fn, some input =>
